@@ -13,3 +13,11 @@ Definition x_ss_whole_sim (fuel : N) (net : list Linkf) (tp : TPf) (route : list
     (fmax : float) (times speeds : list float) (st : TStatef) (c : ResCache) (con : Consistf) : list out :=
   res_outs (ss_whole_sim (N.to_nat fuel) net tp route rp fmax times speeds st c con)
            (fun r => sc_outs (fst r) ++ consist_outs (snd r)).
+
+(* extend_path on a fresh simulation: the braking points (index, count, points) and the speed profile the model
+   derives from the network, the train parameters and the route *)
+Definition x_sl_prepare (fuel_bp : N) (net : list Linkf) (tp : TPf) (route : list Z) (rp : ResParams (F:=float))
+    (fb : FricBrake (F:=float)) (st : TStatef) (c : ResCache) : list out :=
+  res_outs (sl_prepare (N.to_nat fuel_bp) net tp route rp fb st c)
+           (fun r => match r with (p, pts, idx) =>
+              nat_out idx :: nat_out (length pts) :: flat_map bp_outs pts ++ speed_outs p end).
